@@ -185,7 +185,11 @@ class SectionMachine(object):
         inserted = None
         if kind == "append":
             it = self.new_item(op[1], step)
-            s.append(it)
+            name = op[1]
+            if step % 4 == 3 and name.strip() and name not in dir(list) and self.first(name) is None and name != "mnemonic_transforms":
+                setattr(s, name, it)               # attribute assignment of an item under a new name appends it
+            else:
+                s.append(it)
             M.append({"item": it, "orig": op[1]})
             inserted = op[1]
         elif kind == "insert":
